@@ -7,20 +7,20 @@ namespace Asphalt
 
 /-! ### unfolding -/
 
-theorem runTeardown_nil (cid : CtxId) (be : BlockEnd) (x : Ctx) :
-    runTeardown cid be [] x = (x, [], []) := by
+theorem runTeardown_nil (cid : CtxId) (cur : Option CtxId) (be : BlockEnd) (x : Ctx) :
+    runTeardown cid cur be [] x = (x, [], []) := by
   rw [runTeardown]
 
-theorem runTeardown_cons (cid : CtxId) (be : BlockEnd) (id : Nat) (p a : Bool)
+theorem runTeardown_cons (cid : CtxId) (cur : Option CtxId) (be : BlockEnd) (id : Nat) (p a : Bool)
     (body : List BodyOp) (regs : List Cb) (r : Option Exc) (stack : List Cb) (x : Ctx) :
-    runTeardown cid be (Cb.mk id p a body regs r :: stack) x =
-      ((runTeardown cid be (regs.reverse ++ stack) (runBody cid x body).1).1,
+    runTeardown cid cur be (Cb.mk id p a body regs r :: stack) x =
+      ((runTeardown cid cur be (regs.reverse ++ stack) (runBody cid cur x body).1).1,
        .tdStart id (if p then some be.exc else Option.none) ::
-         (if (runBody cid x body).2.isEmpty then [] else [.body (runBody cid x body).2]) ++
-           .tdEnd id r :: (runTeardown cid be (regs.reverse ++ stack) (runBody cid x body).1).2.1,
+         (if (runBody cid cur x body).2.isEmpty then [] else [.body (runBody cid cur x body).2]) ++
+           .tdEnd id r :: (runTeardown cid cur be (regs.reverse ++ stack) (runBody cid cur x body).1).2.1,
        (match r with
-        | some e => e :: (runTeardown cid be (regs.reverse ++ stack) (runBody cid x body).1).2.2
-        | Option.none => (runTeardown cid be (regs.reverse ++ stack) (runBody cid x body).1).2.2)) := by
+        | some e => e :: (runTeardown cid cur be (regs.reverse ++ stack) (runBody cid cur x body).1).2.2
+        | Option.none => (runTeardown cid cur be (regs.reverse ++ stack) (runBody cid cur x body).1).2.2)) := by
   rw [runTeardown]
   rfl
 
@@ -98,29 +98,29 @@ theorem ctxGetNowait_frame (cid : CtxId) (x : Ctx) (k : Key) (opt : Bool) :
         exact (storeGenerated_frame cid _ _ _).trans hc
   · exact SameFrame.refl x
 
-theorem runBodyOp_frame (cid : CtxId) (x : Ctx) (op : BodyOp) :
-    SameFrame (runBodyOp cid x op).1 x := by
+theorem runBodyOp_frame (cid : CtxId) (cur : Option CtxId) (x : Ctx) (op : BodyOp) :
+    SameFrame (runBodyOp cid cur x op).1 x := by
   cases op with
   | add types name v => exact ctxAdd_frame cid x _ rfl
   | addFactory types name fid => exact ctxAddFactory_frame cid x _
   | getNowait ty name opt => exact ctxGetNowait_frame cid x _ opt
   | current => exact SameFrame.refl x
 
-theorem runBody_frame (cid : CtxId) (x : Ctx) (ops : List BodyOp) :
-    SameFrame (runBody cid x ops).1 x := by
+theorem runBody_frame (cid : CtxId) (cur : Option CtxId) (x : Ctx) (ops : List BodyOp) :
+    SameFrame (runBody cid cur x ops).1 x := by
   induction ops generalizing x with
   | nil => exact SameFrame.refl x
   | cons op ops ih =>
     simp only [runBody]
-    exact (ih _).trans (runBodyOp_frame cid x op)
+    exact (ih _).trans (runBodyOp_frame cid cur x op)
 
-theorem runTeardown_frame (cid : CtxId) (be : BlockEnd) (st : List Cb) (x : Ctx) :
-    SameFrame (runTeardown cid be st x).1 x := by
+theorem runTeardown_frame (cid : CtxId) (cur : Option CtxId) (be : BlockEnd) (st : List Cb) (x : Ctx) :
+    SameFrame (runTeardown cid cur be st x).1 x := by
   induction st using stack_induction generalizing x with
   | nil => rw [runTeardown_nil]; exact SameFrame.refl x
   | cons id p a body regs r stack ih =>
     rw [runTeardown_cons]
-    exact (ih _).trans (runBody_frame cid x body)
+    exact (ih _).trans (runBody_frame cid cur x body)
 
 /-! ### reading a context back -/
 
@@ -198,13 +198,13 @@ theorem step_exit (w : World) (t : TaskId) (c : CtxId) (be : BlockEnd) (x : Ctx)
     (hx : w.ctx? c = some x) (hs : x.state = .opened) :
     step w (.exit t c be) =
       (removeChild
-        ((w.setCtx c { (runTeardown c be (effStack be x.tds) { x with state := .closing, tds := [] }).1 with
+        ((w.setCtx c { (runTeardown c (w.curOf t) be (effStack be x.tds) { x with state := .closing, tds := [] }).1 with
             state := .closed }).setCur t (x.token.getD Option.none)) x.parent c,
-       (runTeardown c be (effStack be x.tds) { x with state := .closing, tds := [] }).2.1 ++
+       (runTeardown c (w.curOf t) be (effStack be x.tds) { x with state := .closing, tds := [] }).2.1 ++
          [.closed, exitOutcome be x.parent.isNone x.children
-            (runTeardown c be (effStack be x.tds) { x with state := .closing, tds := [] }).2.2]) := by
-  have hch : (runTeardown c be (effStack be x.tds) { x with state := .closing, tds := [] }).1.children =
-      x.children := (runTeardown_frame c be (effStack be x.tds) _).2.2.1
+            (runTeardown c (w.curOf t) be (effStack be x.tds) { x with state := .closing, tds := [] }).2.2]) := by
+  have hch : (runTeardown c (w.curOf t) be (effStack be x.tds) { x with state := .closing, tds := [] }).1.children =
+      x.children := (runTeardown_frame c (w.curOf t) be (effStack be x.tds) _).2.2.1
   simp only [step, hx, hs, exitOutcome, ne_eq, not_true_eq_false, if_false]
   rw [hch]
   rfl
